@@ -258,7 +258,7 @@ class InputClass:
         self.default_fr = dom == 'windy' and WG_FR[prm[1]] is None
         self.goal_exit_cells = set()
         self.zero_exit_cells = set()
-        if dom == 'windy' and not self.default_fr:
+        if dom == 'windy':
             m = H.WindyModel(rows, prm[0])
             R = m.reachable()
             self.goal_exit_cells = m.goal_exits(R)
@@ -281,7 +281,6 @@ class InputClass:
             # WindyGridWorld constructed with feature_rewards=None: its transition function dereferences None
             if pr.exc is not None and isinstance(pr.exc, AttributeError) and "'NoneType' object has no attribute 'get'" in str(pr.exc):
                 return F_DEFAULT_FR
-            return None
         if self.dom not in ('windy', 'hoh'):
             return None
         if pr.kind == 'successor_outside_state_list':
